@@ -17,6 +17,14 @@ def main(argv=None):
 
         return replay.main([a.replay])
     prop = a.prop
+    if prop == "selftest":
+        from . import selftest
+
+        try:
+            return selftest.full()
+        except selftest.SelfTestFailure as e:
+            print(f"SELFTEST FAILED: {e}")
+            return 2
     if prop in ("C01", "C02", "C06", "C03", "C05"):
         from .props import entity
 
@@ -31,5 +39,18 @@ def main(argv=None):
     return mod.check(a.tier)
 
 
+def _guarded():
+    try:
+        return main()
+    except SystemExit:
+        raise
+    except BaseException as e:  # a crash of the machinery is never a verdict about kio
+        import traceback
+
+        traceback.print_exc()
+        print(f"INCONCLUSIVE: the check crashed: {type(e).__name__}: {e}")
+        return 2
+
+
 if __name__ == "__main__":
-    sys.exit(main())
+    sys.exit(_guarded())
